@@ -2,6 +2,7 @@ import FractopoModel.Model.Subsampling
 import FractopoModel.Generated.ParamTable
 import FractopoModel.Generated.AggregateDispatch
 import FractopoModel.Generated.RandomRadius
+import FractopoModel.Generated.Subsampling
 /-!
 # C20 — subsampling keeps every sample, aggregates as declared, samples inside target
 -/
@@ -141,6 +142,93 @@ theorem C20_aggregate (columns : List String) (rows : List (String → Cell)) (c
       cases hw : (rows.map (· "Area")).mapM Cell.num? with
       | none => simp
       | some ws => by_cases h0 : ws.sum = 0 <;> simp [h0]
+
+/-! ### the regenerated loops of `group_gathered_subsamples` and `aggregate_chosen` -/
+
+theorem alistAppendTo_eq_insertAcc (k : String) (v : α) (g : List (String × List α)) : alistAppendTo k v g = insertAcc k v g := by
+  induction g with
+  | nil => rfl
+  | cons hd tl ih =>
+    obtain ⟨k', vs⟩ := hd
+    simp only [alistAppendTo, insertAcc, ih]
+    by_cases h : k' = k <;> simp [h]
+
+theorem group_loop_eq {I : Type} (keyf : I → String) (all l : List I) (acc : AList String (List I)) :
+    Gen.group_gathered_subsamples_loop1 keyf all l acc = l.foldl (fun acc i => insertAcc (keyf i) i acc) acc := by
+  induction l generalizing acc with
+  | nil => rfl
+  | cons i rest ih => simp [Gen.group_gathered_subsamples_loop1, ih, alistAppendTo_eq_insertAcc]
+
+/-- **The regenerated grouping loop IS the model's grouping** (`Subs.group`), hence a partition with one group per
+distinct name (`C20_group_partition`, `C20_group_keys_nodup`) whatever the order of the list. -/
+theorem C20_generated_group {I : Type} (keyf : I → String) (xs : List I) :
+    Gen.group_gathered_subsamples keyf xs = group (xs.map fun i => (keyf i, i)) := by
+  unfold Gen.group_gathered_subsamples group
+  simp only [group_loop_eq, List.foldl_map]
+
+theorem lookup_loop_eq {C R : Type} (agg : String → List C → List C → Option R) (fb : List C → R) (chosen : List (String → C)) (cols : List String)
+    (dflt : String) (c : String) (table : List (String × String)) (cur : String) :
+    Gen.aggregate_chosen_loop2 agg fb chosen cols dflt c table cur = (match table.find? (·.1 == c) with | some p => p.2 | none => cur) := by
+  induction table with
+  | nil => rfl
+  | cons p rest ih =>
+    simp only [Gen.aggregate_chosen_loop2, List.find?_cons]
+    by_cases h : c = p.1
+    · subst h; simp
+    · have h1 : (c == p.1) = false := by simpa using h
+      have h2 : (p.1 == c) = false := by simpa using (Ne.symm h)
+      simp [h1, h2, ih]
+
+/-- what the regenerated loop stores for one column -/
+def genCell {C R : Type} (agg : String → List C → List C → Option R) (fb : List C → R) (chosen : List (String → C)) (dflt : String) (c : String) : R :=
+  match agg (lookupAgg Gen.paramAggregator dflt c) (chosen.map (· c)) (chosen.map (· "Area")) with
+  | some v => v
+  | none => fb (chosen.map (· c))
+
+theorem agg_loop_eq {C R : Type} (agg : String → List C → List C → Option R) (fb : List C → R) (chosen : List (String → C)) (cols : List String)
+    (dflt : String) (l : List String) (acc : AList String R) (hnd : l.Nodup) (hfresh : ∀ c ∈ l, alistHas acc c = false) :
+    Gen.aggregate_chosen_loop1 agg fb chosen cols dflt (chosen.map (· "Area")) l acc = acc ++ l.map (fun c => (c, genCell agg fb chosen dflt c)) := by
+  induction l generalizing acc with
+  | nil => simp [Gen.aggregate_chosen_loop1]
+  | cons c rest ih =>
+    simp only [Gen.aggregate_chosen_loop1, lookup_loop_eq]
+    have hc : alistHas acc c = false := hfresh c (by simp)
+    have hset : ∀ v : R, alistSet acc c v = acc ++ [(c, v)] := by intro v; simp [alistSet, hc]
+    rw [hset, ih]
+    · simp only [List.map_cons, List.append_assoc, List.cons_append, List.nil_append, genCell, lookupAgg]
+      rfl
+    · exact (List.nodup_cons.mp hnd).2
+    · intro c' hc'
+      have hne : c' ≠ c := by intro h; subst h; exact (List.nodup_cons.mp hnd).1 hc'
+      have := hfresh c' (by simp [hc'])
+      simp only [alistHas, List.any_append, List.any_cons, List.any_nil, Bool.or_false] at this ⊢
+      simp [this, Ne.symm hne]
+
+/-- **The regenerated aggregation loops**: for duplicate-free columns (dict keys) the result lists, column by column in
+order, the aggregator's value -- the aggregator being looked up afresh for EVERY column in the regenerated table
+(default otherwise), fed with that column's values and the Area column as weights -- or the fallback when it raises. -/
+theorem C20_generated_aggregate {C R : Type} (agg : String → List C → List C → Option R) (fb : List C → R) (chosen : List (String → C))
+    (columns : List String) (dflt : String) (hnd : columns.Nodup) :
+    Gen.aggregate_chosen agg fb chosen columns dflt = columns.map (fun c => (c, genCell agg fb chosen dflt c)) := by
+  unfold Gen.aggregate_chosen
+  simp only []
+  rw [agg_loop_eq agg fb chosen columns dflt columns [] hnd (by intro c _; rfl)]
+  simp
+
+/-- … instantiated with the documented aggregators (`Subs.aggColumn`: sum / area-weighted mean, raising on non-numeric
+values or zero total weight) it is the model's `aggregateGen` up to the string fallback -/
+theorem C20_generated_aggregate_model (chosen : List (String → Cell)) (columns : List String) (hnd : columns.Nodup) :
+    Gen.aggregate_chosen (fun a vs ws => match aggColumn a vs ws with | .sum q => some (Agg.sum q) | .mean q => some (Agg.mean q) | _ => none)
+        (fun _ => Agg.fallback) chosen columns Gen.default_aggregator
+      = (aggregateGen columns chosen).map (fun ca => (ca.1, match ca.2 with | .undefinedMean => Agg.fallback | a => a)) := by
+  rw [C20_generated_aggregate _ _ _ _ _ hnd]
+  simp only [aggregateGen, aggregate, List.map_map]
+  apply List.map_congr_left
+  intro c _
+  simp only [Function.comp, genCell]
+  have hwc : Gen.weight_column = "Area" := rfl
+  rw [hwc]
+  cases aggColumn (lookupAgg Gen.paramAggregator Gen.default_aggregator c) (chosen.map (· c)) (chosen.map (· "Area")) <;> rfl
 
 /-- random radius lies in [r_min, r_max) for u in [0,1) -/
 theorem C20_radius_range (rmin rmax u : Rat) (h : rmin < rmax) (hu0 : 0 ≤ u) (hu1 : u < 1) :
